@@ -13,7 +13,8 @@ import time
 ROOT = os.path.dirname(os.path.dirname(os.path.abspath(__file__)))
 LEAN = os.path.join(ROOT, "lean")
 REPO = os.environ.get("VERIF_REPO", "/repo")
-EVID = os.path.join(ROOT, "evidence")
+# evidence/ describes runs against /repo itself; a run against a scratch copy (seeded-change experiments) writes elsewhere
+EVID = os.path.join(ROOT, "evidence") if "VERIF_REPO" not in os.environ else "/tmp/verif-scratch/evidence"
 REPLAYS = os.path.join(ROOT, "replays")
 ALLOWED_AXIOMS = {"propext", "Classical.choice", "Quot.sound"}
 FORBIDDEN = re.compile(
